@@ -580,6 +580,9 @@ def replay(data):
         elif fmt == 'ja':
             set_lang('ja')
             try:
+                if 'tree' in d and d.get('kind') == 'printed':
+                    st0, printed = guarded(ja_of, tree_of_json(d['tree']))
+                    line = printed if st0 == 'ok' else line
                 st, r = guarded(lambda: ja_reader._JaCCGLineReader(line).parse())
                 if 'tree' in d and st == 'ok':
                     diff = same_tree(tree_of_json(d['tree']), r[0], normalize, symbols=True)
